@@ -2,12 +2,16 @@ package astits
 
 import (
 	"bufio"
+	"bytes"
 	"errors"
 	"fmt"
 	"io"
 
 	"github.com/asticode/go-astikit"
 )
+
+// autoDetectPacketSizeLength is the number of bytes the packet size detection looks at
+const autoDetectPacketSizeLength = 193
 
 // packetBuffer represents a packet buffer
 type packetBuffer struct {
@@ -28,6 +32,20 @@ func newPacketBuffer(r io.Reader, packetSize int, s PacketSkipper) (pb *packetBu
 
 	// Packet size is not set
 	if pb.packetSize == 0 {
+		// A bufio.Reader whose buffer is smaller than what the detection looks at can't be peeked at: the detection is
+		// done on a copy of these first bytes and they are put back in front of the reader
+		if br, ok := r.(*bufio.Reader); ok && br.Size() < autoDetectPacketSizeLength {
+			b := make([]byte, autoDetectPacketSizeLength)
+			var n int
+			if n, err = readFull(r, b); err != nil && (err != io.EOF || n == 0) {
+				err = fmt.Errorf("astits: reading first %d bytes failed: %w", len(b), err)
+				return
+			}
+			first := bytes.NewReader(b[:n])
+			pb.r = io.MultiReader(first, r)
+			r = first
+		}
+
 		// Auto detect packet size
 		if pb.packetSize, err = autoDetectPacketSize(r); err != nil {
 			err = fmt.Errorf("astits: auto detecting packet size failed: %w", err)
@@ -42,7 +60,7 @@ func newPacketBuffer(r io.Reader, packetSize int, s PacketSkipper) (pb *packetBu
 // Assumption is made that the first byte of the reader is a sync byte
 func autoDetectPacketSize(r io.Reader) (packetSize int, err error) {
 	// Read first bytes
-	const l = 193
+	const l = autoDetectPacketSizeLength
 	var b = make([]byte, l)
 	shouldRewind, rerr := peek(r, b)
 	if rerr != nil {
